@@ -427,6 +427,19 @@ pub fn render(sc: &Value) -> Rendered {
         }
     }
     let mut truth = truth;
+    if framing == "length" && client_coding != "identity" {
+        if let Some(d) = guo(&body, "declared") {
+            // Content-Length says d, the coded stream is longer: the frame ends inside it (what follows is not body)
+            if d < raw.len() {
+                frame_end_spec = head_end + d;
+                if spec_fault == "none" {
+                    // for the client this is a coded stream that ends too early
+                    spec_fault = "cut".into();
+                    fault_at = head_end + d;
+                }
+            }
+        }
+    }
     if framing == "length" && client_coding == "identity" {
         if let Some(d) = guo(&body, "declared") {
             // Content-Length says d; the peer sends raw.len() octets (fewer: the frame is cut; more: garbage follows)
@@ -787,6 +800,10 @@ pub fn run(sc: &Value) -> Vec<String> {
                                 loop {
                                     let bs = if tr_bufs.is_empty() { 4096 } else { tr_bufs[i % tr_bufs.len()].max(1) };
                                     i += 1;
+                                    if i % 2 == 0 {
+                                        // an empty read in between hands out nothing and loses nothing
+                                        let _ = tr.read(&mut []);
+                                    }
                                     let mut b = vec![0u8; bs];
                                     match tr.read(&mut b) {
                                         Ok(0) => break,
